@@ -43,8 +43,12 @@ def is_date(s: str) -> Optional[date]:
     """
     # dateutil.parser.parse replaces missing parts of datetime with values from default value
     # so if there is hour part in given string then d1 and d2 would be equal and string is not pure date
-    d1 = dateutil.parser.parse(s, default=_check_values_date[0])
-    d2 = dateutil.parser.parse(s, default=_check_values_date[1])
+    try:
+        d1 = dateutil.parser.parse(s, default=_check_values_date[0])
+        d2 = dateutil.parser.parse(s, default=_check_values_date[1])
+    except OverflowError:
+        # dateutil raises OverflowError (not ValueError) for numbers beyond the C integer range: such a string is no date
+        return None
     return None if d1 == d2 else d1.date()
 
 
@@ -61,8 +65,11 @@ def is_time(s: str) -> Optional[time]:
     :param s: string
     :return: time or None
     """
-    d1 = dateutil.parser.parse(s, default=_check_values_time[0])
-    d2 = dateutil.parser.parse(s, default=_check_values_time[1])
+    try:
+        d1 = dateutil.parser.parse(s, default=_check_values_time[0])
+        d2 = dateutil.parser.parse(s, default=_check_values_time[1])
+    except OverflowError:
+        return None
     return None if d1 == d2 else d1.time()
 
 
